@@ -132,6 +132,20 @@ fn run_case<'a>(ctx: &'a Ctx, case: u64, acc: &'a mut Acc) -> CaseFut<'a> {
             groups: vec![GroupSpec { name: "h".into(), users: vec![], user_admins: vec![], rights: vec![mk_right("*", true, true)] }],
         };
         let room2 = a.create_room(&spec2).await.unwrap();
+        // in some histories the adversary has been an admin of the room for a while and is not any more
+        let mut admin_window: Option<(i64, i64)> = None;
+        if rng.gen_bool(0.4) {
+            t += 50;
+            clock_set(t);
+            let from = t;
+            if a.edit_room(&mut room, &RoomEdit::Admin(m.vkey.clone(), true)).await.is_ok() {
+                t += 500;
+                clock_set(t);
+                if a.edit_room(&mut room, &RoomEdit::Admin(m.vkey.clone(), false)).await.is_ok() {
+                    admin_window = Some((from, t));
+                }
+            }
+        }
         t += 5;
         clock_set(t);
         let st = pull(&v, &a, room.id, PullOpts::default()).await;
@@ -164,7 +178,7 @@ fn run_case<'a>(ctx: &'a Ctx, case: u64, acc: &'a mut Acc) -> CaseFut<'a> {
         clock_set(t);
 
         // candidate
-        let kind = rng.gen_range(0..12);
+        let kind = if admin_window.is_some() && rng.gen_bool(0.5) { 12 } else { rng.gen_range(0..12) };
         let mut cand = export_v1.clone();
         let mut expected: Vec<&RoomHandle> = vec![&model_v0, &room];
         let mut sequence: Option<Vec<RoomNode>> = None;
@@ -252,6 +266,17 @@ fn run_case<'a>(ctx: &'a Ctx, case: u64, acc: &'a mut Acc) -> CaseFut<'a> {
                 cand.admin_edges.push(signed_edge(room.id, ROOM_ENT_SHORT, "32", n.id, t, &m));
                 cand.admin_nodes.push(UserNode { node: n });
                 "self-signed-entry-disabling-the-admin"
+            }
+            12 => {
+                // a former admin signs a new admin entry for itself: created (cdate) while it was admin, in force (mdate) now
+                let (from, to) = admin_window.unwrap();
+                let mut n = user_node(&m.vkey, t, &m, &mut rng);
+                n.cdate = from + (to - from) / 2;
+                n.sign(&m.signing).unwrap();
+                let edge_date = if rng.gen_bool(0.5) { t } else { n.cdate };
+                cand.admin_edges.push(signed_edge(room.id, ROOM_ENT_SHORT, "32", n.id, edge_date, &m));
+                cand.admin_nodes.push(UserNode { node: n });
+                "self-signed-admin-entry-by-a-former-admin-created-while-it-was-admin"
             }
             _ => {
                 // honest versions out of order and repeated
